@@ -137,6 +137,12 @@ class MPSBackendImpl:
             else optimat.eye_permutation(self.qubit_count)
         )
 
+        # Site i of the MPS holds register atom qubit_permutation[i]: the per-atom
+        # drives have to follow the same reordering as the interaction matrix.
+        self.omega = self.omega[:, self.qubit_permutation]
+        self.delta = self.delta[:, self.qubit_permutation]
+        self.phi = self.phi[:, self.qubit_permutation]
+
         self.hamiltonian_type = pulser_data.hamiltonian_type
         self.time = time.time()
 
@@ -216,7 +222,10 @@ class MPSBackendImpl:
         # has_state_preparation_error
         if self.pulser_data.state_prep_error > 0.0:
             bad_atoms = self.pulser_data.bad_atoms
-            self.well_prepared_qubits_filter = torch.logical_not(torch.tensor(bad_atoms))
+            # bad_atoms is in register order, the simulated sites are permuted
+            self.well_prepared_qubits_filter = optimat.permute_tensor(
+                torch.logical_not(torch.tensor(bad_atoms)), self.qubit_permutation
+            )
         else:
             self.well_prepared_qubits_filter = None
         logging.getLogger("emulators").debug(
